@@ -17,7 +17,7 @@ PROPERTY = 'C09'
 META = {
     'level': 'exploration',
     'technique': 'offline history checkers (exactly-once/in-order per session, torn-read detector with unique stamps, WGL linearizability search against an array model, private-slice conservation) over histories recorded under a perturbed scheduler',
-    'text': 'The real TCP server runs in its own process started by a harness launcher that sets sys.setswitchinterval(1e-5) (thorough: plus time.sleep(0) yield injection at random LINE events '
+    'text': 'Cold starts: a freshly started simulator receives the first frames of 6..12 sessions at once (barrier), after which every tag must still be its own storage (a distinct pattern written to each tag is read back from it). The real TCP server runs in its own process started by a harness launcher that sets sys.setswitchinterval(1e-5) (thorough: plus time.sleep(0) yield injection at random LINE events '
             'in automata/device/logix/ucmm/main via sys.monitoring; no repository change). 2..12 client threads drive few tags hard: a shared DINT[8] written whole with unique stamps and read '
             'whole (single requests and bundles), short mixed histories on INT[4] tags with unique values for the linearizability search, and private slices of a DINT[64]. Call time is taken '
             'before sendall, return time after the complete reply frame, one monotonic clock; monitor state is per thread until join. Evidence reports what was actually interleaved: overlapping '
@@ -29,10 +29,10 @@ LEVEL = META['level']
 RULE = ('a case = one recorded multi-session history (uniform / mixed / private) checked offline; distinct by (workload kind, seed, history digest); '
         'non-trivial = operations of different sessions really overlapped in time (counted) and at least one write was observed by another session')
 ASSUMPTIONS = ['server scheduler perturbed by sys.setswitchinterval(1e-5) (and LINE yield injection in the thorough tier)', 'client clocks: time.monotonic_ns in one process']
-REQUIRED = ['server:yields-injected', 'histories:uniform', 'histories:mixed', 'histories:private', 'ops', 'overlapping-pairs', 'server:dfa-lock-contended', 'server:post-closures', 'monitor:torn-read-checks',
+REQUIRED = ['cold-start:servers', 'monitor:cold-start-tags-distinct', 'server:yields-injected', 'histories:uniform', 'histories:mixed', 'histories:private', 'ops', 'overlapping-pairs', 'server:dfa-lock-contended', 'server:post-closures', 'monitor:torn-read-checks',
             'monitor:lincheck-ok', 'monitor:per-session-order', 'monitor:private-slice', 'reads-observing-foreign-write', 'ops:bundled']
 TIMEOUT = {'quick': 300, 'thorough': 2400}
-SOFT = {'quick': 40, 'thorough': 900}
+SOFT = {'quick': 60, 'thorough': 900}
 
 NLTAGS = 40
 
@@ -73,10 +73,11 @@ class Server:
 class Recorder:
     """one client thread: its own connection, its own log (merged only after join)"""
 
-    def __init__(self, address, proc):
+    def __init__(self, address, proc, register=True):
         from vlib import simdrv
         self.c = simdrv.RawClient(address, timeout=30)
-        self.c.register(b'R%07d' % proc)
+        if register:
+            self.c.register(b'R%07d' % proc)
         self.proc = proc
         self.log = []
         self.n = 0
@@ -334,6 +335,67 @@ def private(ctx, srv, rng, nsess, nops, salt):
     ctx.case(('private', salt, len(ops)), nontrivial=True)
 
 
+def cold_start(ctx, rng, nsess, yield_p, salt):
+    """A freshly started simulator whose very first requests arrive from several sessions at once (a barrier releases them together):
+    afterwards every tag must still be its own storage -- a pattern written to each tag in turn must be read back from it and from no other."""
+    srv = Server(yield_p=yield_p)
+    wit = {'workload': 'cold-start', 'sessions': nsess, 'yield_p': yield_p}
+    try:
+        recs = [Recorder(srv.address, salt * 100 + i, register=False) for i in range(nsess)]       # connected, nothing sent yet
+        barrier = threading.Barrier(nsess)
+
+        def first(r):
+            barrier.wait(10)
+            try:
+                r.c.register(b'R%07d' % r.proc)       # the very first frame the simulator processes for this session
+            except Exception as exc:
+                r.errors.append(('no-reply', 0, repr(exc)))
+                return
+            r.do(rd('L%d' % (r.proc % NLTAGS), 0, 4), 'L')
+            r.do(rd('U', 0, 8), 'U')
+        ok = run_threads([lambda r=r: first(r) for r in recs])
+        if not ok:
+            ctx.inconclusive_because('cold-start sessions still running after 120 s (watchdog)')
+            return
+        ctx.count('cold-start:servers')
+        ctx.case(('cold-start', salt, nsess, yield_p), nontrivial=True)
+        if not session_checks(ctx, recs, wit):
+            return
+        r0 = recs[0]
+        r0.errors.clear()
+        names = ['L%d' % i for i in range(NLTAGS)]
+        for j, nm in enumerate(names):
+            r0.do(wr(nm, 0, [1000 + j * 4 + e for e in range(4)], tcode=0xC3), nm)
+        r0.do(wr('U', 0, [70000 + e for e in range(8)]), 'U')
+        r0.do(wr('P', 0, [90000 + e for e in range(8)]), 'P')
+        r0.log.clear()
+        for j, nm in enumerate(names):
+            rep = r0.do(rd(nm, 0, 4), nm)
+            want = [1000 + j * 4 + e for e in range(4)]
+            got = rep['read_tag']['data'] if rep and rep.get('status') == 0 else None
+            ctx.count('monitor:cold-start-tags-distinct')
+            if got != want:
+                ctx.violation('tags-share-storage-after-concurrent-first-requests', 'after %d sessions made their first requests together, tag %s reads %r; %r was written to it '
+                              '(and other patterns to the other tags)' % (nsess, nm, got, want), wit)
+                return
+        for nm, base, n in (('U', 70000, 8), ('P', 90000, 8)):
+            rep = r0.do(rd(nm, 0, n), nm)
+            got = rep['read_tag']['data'] if rep and rep.get('status') == 0 else None
+            if got != [base + e for e in range(n)]:
+                ctx.violation('tags-share-storage-after-concurrent-first-requests', 'tag %s reads %r after the cold start' % (nm, got), wit)
+                return
+        if r0.errors:
+            session_checks(ctx, [r0], wit)
+    finally:
+        for r in locals().get('recs', []):
+            try:
+                r.close()
+            except Exception:
+                pass
+        srv.stop()
+    account(ctx, srv)
+
+
 def account(ctx, srv):
     ctx.count('server:dfa-lock-contended', srv.stats.get('dfa_contended', 0))
     ctx.count('server:dfa-enter', srv.stats.get('dfa_enter', 0))
@@ -350,6 +412,11 @@ def run(ctx):
         if quick and rounds > 1:
             break
         salt = ctx.shard * 1000 + rounds * 10
+        # (0) cold starts: the first requests a fresh simulator ever sees arrive from several sessions at once
+        for c in range(3 if quick else 6):
+            if ctx.expired() and not quick:
+                break
+            cold_start(ctx, rng, nsess=rng.choice([6, 8, 12]), yield_p=(0.02 if c % 3 == 2 else 0.0), salt=salt + 20 + c)
         # (1) plain server: tiny switch interval only
         srv = Server(yield_p=0.0)
         try:
